@@ -6,6 +6,7 @@ set -u
 P=$1; K=$2; shift 2
 SRC=${SEEDSRC:-/tmp/seedout-$P}/$K
 WT=/tmp/sv-$P-${SEEDTAG:-}$K
+LG=/tmp/svlog-$P-${SEEDTAG:-}$K
 OUT=/verif/seeded/$P-${SEEDTAG:-}$K
 export GOFLAGS=-mod=mod GOPROXY=off GOSUMDB=off GOTOOLCHAIN=local
 git -C /repo worktree remove --force $WT 2>/dev/null
@@ -21,7 +22,7 @@ c=re.split(r'\s{2,}[#(]', c)[0]      # cut trailing free-text remarks
 print(c.strip())")
 demo_src=$(ls $SRC | grep -v -e patch.diff -e meta.json | head -1)
 cp -r $SRC/$demo_src $OUT/
-run_demo() { ( cd $WT && mkdir -p "$(dirname "$demo_path")" && cp -r $SRC/$demo_src "$demo_path" && timeout 900 unshare --ipc bash -c "$demo_cmd" >/tmp/sv-demo.log 2>&1; rc=$?; rm -rf "$demo_path"; echo $rc ); }
+run_demo() { ( cd $WT && mkdir -p "$(dirname "$demo_path")" && cp -r $SRC/$demo_src "$demo_path" && timeout 900 unshare --ipc bash -c "$demo_cmd" >$LG-demo.log 2>&1; rc=$?; rm -rf "$demo_path"; echo $rc ); }
 # 1. demo on the unchanged tree must pass
 d0=$(run_demo)
 # 2. apply the change
@@ -29,20 +30,20 @@ d0=$(run_demo)
 applied=${applied:-1}
 b=1; t=1; d1=-1
 if [ $applied = 1 ]; then
-  ( cd $WT && go build ./... >/tmp/sv-build.log 2>&1 ); b=$?
-  ( cd $WT && unshare --ipc go test -p 1 -vet=off -count=1 ./... >/tmp/sv-test.log 2>&1 ); t=$?
+  ( cd $WT && go build ./... >$LG-build.log 2>&1 ); b=$?
+  ( cd $WT && unshare --ipc go test -p 1 -vet=off -count=1 ./... >$LG-test.log 2>&1 ); t=$?
   d1=$(run_demo)
 fi
 # 3. our checks
 declare -A res
 for C in $P "$@"; do
-  ( cd /verif && VERIF_REPO=$WT timeout 1500 ./check $C >/tmp/sv-check-$C.log 2>&1 ); rc=$?
-  viol=$(grep -c '^VIOLATION' /tmp/sv-check-$C.log)
-  first=$(grep '^VIOLATION' /tmp/sv-check-$C.log | head -1)
+  ( cd /verif && VERIF_REPO=$WT timeout 1500 ./check $C >$LG-check-$C.log 2>&1 ); rc=$?
+  viol=$(grep -c '^VIOLATION' $LG-check-$C.log)
+  first=$(grep '^VIOLATION' $LG-check-$C.log | head -1)
   res[$C]="$rc|$viol|$first"
   rp=$(echo "$first" | sed -n 's/.*replay=\([^ ]*\).*/\1/p')
   [ -n "$rp" ] && cp "$rp" $OUT/replay-$C.json 2>/dev/null
-  tail -3 /tmp/sv-check-$C.log > $OUT/check-$C.tail.txt
+  tail -3 $LG-check-$C.log > $OUT/check-$C.tail.txt
 done
 python3 - "$P" "$K" "$d0" "$applied" "$b" "$t" "$d1" "$OUT" "$(for C in "${!res[@]}"; do echo "$C=${res[$C]}"; done)" <<'PY'
 import sys, json
@@ -64,4 +65,5 @@ json.dump(r, open(out + "/meta.json", "w"), indent=1)
 print(json.dumps(r["confirmed"]), {c: (v["exit"], v["first"][-60:]) for c, v in checks.items()})
 PY
 git -C /repo worktree remove --force $WT
-( cd /verif && ./check $P >/dev/null 2>&1 )   # regenerate Gen/ and evidence from the real /repo
+( cd /verif/go && flock /verif/.build.lock /verif/bin/extract -repo /repo -out /verif/lean/PttVerif/Gen >/dev/null 2>&1 )   # Gen/ back to /repo's facts (evidence/ is not touched by runs against a scratch copy)
+rm -f $LG-*.log
